@@ -11,6 +11,7 @@ from hypothesis import strategies as st
 
 from vlib import world as W
 from vlib import simbus
+from vlib import simkernel as sk
 from vlib import refcodec as R
 from vlib.refpeer import RefPeer
 
@@ -49,8 +50,19 @@ def _strategy():
         st.sampled_from(["j1939-21", "j1939-22"]), st.sampled_from([0x20, 0x80, 0xC8, 0xF0]), st.sampled_from([0.0, 0.001, 0.1]),
         st.sampled_from([0.3, 0.6, 1.0]), st.sampled_from([0.0005, 0.002, 0.004]), st.lists(send, min_size=1, max_size=4),
         st.sampled_from([0.001, 0.3, 0.6]), st.lists(st.one_of(send, contend, wait), max_size=4))
+    # whole-case shape: a DM1 cycle whose data callback takes 5-20 ms is running; the CA loses its address while that callback
+    # is being executed (the contending claim arrives 1-4 ms after the cycle's timer tick); then every entry point is tried
+    shape_dm1 = st.builds(
+        lambda dll, aac, addr, d, dur, x, sends, w2, more: {
+            "dll": dll, "aac": aac, "bypass": False, "addr": addr, "dm1_tail": False, "tx_pre": 0.0, "tx_time": 0.0, "lat": [0.0005],
+            "ops": [{"op": "start", "delay": d}, {"op": "wait", "d": 0.6}, {"op": "dm1", "cycle": 0.1, "dur": dur},
+                    {"op": "wait", "d": 0.05}, {"op": "contend", "lower": True, "at_tick": -x}] + sends +
+                   [{"op": "wait", "d": w2}] + more},
+        st.sampled_from(["j1939-21", "j1939-22"]), st.booleans(), st.sampled_from([0x20, 0x80, 0xC8, 0xF0]), st.sampled_from([0.0, 0.001]),
+        st.sampled_from([0.005, 0.01, 0.02]), st.sampled_from([0.001, 0.002, 0.004]), st.lists(send, min_size=1, max_size=3),
+        st.sampled_from([0.3, 0.6]), st.lists(st.one_of(send, contend, wait), max_size=3))
     general = _general(rnd, pattern, pattern2)
-    return st.one_of(general, general, general, general, general, shape_tick)
+    return st.one_of(general, general, general, general, general, shape_tick, shape_dm1)
 
 
 def _general(rnd, pattern, pattern2):
@@ -76,7 +88,10 @@ class C13:
             "immediate or veto range, either data link layer) and a history of 1..14 operations: start(claim_delay), waits "
             "{1,50,100,249,251,300,600,1000 ms}, a contending claim with a lower or higher NAME for the address the CA "
             "currently announces/holds, and send attempts via send_pgn (single frame / BAM / RTS-CTS / PGN 0xEE00), "
-            "send_message, send_request (any PGN, the address-claim PGN), Dm22; optionally a DM1 cycle at the end; "
+            "send_message, send_request (any PGN, the address-claim PGN), Dm22; optionally a DM1 cycle at the end; frame writes "
+            "that wait 2/5 ms before the bus (background thread) or keep any caller 0.5/5 ms after it; two whole-case shapes in one "
+            "case of seven each: the address is lost 0.5-4 ms before a tick of the claim timer while writes take 5 ms, and the "
+            "address is lost while the data callback (5-20 ms) of a running DM1 cycle is being executed; "
             "non-trivial = a send attempted while the CA is not operational after having lost its address; "
             "distinct = distinct histories")
     ASSUMPTIONS = [
@@ -142,6 +157,13 @@ class C13:
                 kind = op["op"]
                 if kind == "wait":
                     w.run_for(op["d"])
+                elif kind == "dm1":
+                    def slow_data(dur=op["dur"]):
+                        sk.FAKE_TIME.sleep(dur)              # the application's data callback takes time (job thread)
+                        return ({"pl": 1}, [{"spn": 100, "fmi": 3, "oc": 1}])
+                    dm1_early = j.Dm1(ca)
+                    dm1_early.start_send(slow_data, op["cycle"])
+                    labels.append("dm1-slow-callback")
                 elif kind == "start":
                     if not started[0]:
                         ca.start(op["delay"])
